@@ -7,8 +7,10 @@ From Verif Require Topk TopkProofs.
 
 (* Whatever the expression, every sub-query the optimizer sends to the remote
    engines consists of selectors under functions, unary/paren/step-invariant
-   wrappers and distributive aggregations only: no binary expression (a join
-   needs the whole data set), no non-distributive aggregation, no literal. *)
+   wrappers and distributive aggregations whose parameter does not read the
+   storage: no binary expression (a join needs the whole data set), no
+   non-distributive aggregation, no aggregation whose parameter would be
+   evaluated per partition, no literal. *)
 Theorem C10_remote_subqueries_pushable : forall n e,
   plain e = true -> remotes_pushable (opt_distribute n e) = true.
 Proof. exact distributed_remotes_pushable. Qed.
